@@ -50,6 +50,8 @@ def run(ctx):
     c07.r77(ctx, 'R6.8')
     from . import meta_rules
     meta_rules.rowcount_rule(ctx, 'R6.14', only_modules={'api'})
+    from . import c17 as _c17
+    _c17.r172(ctx, api)     # the dtype an explicitly chosen index column is allocated with
     r611(ctx)
     r612(ctx, api)
     r613(ctx, api)
@@ -364,6 +366,26 @@ def r64(ctx, api):
                        '`%s` mutates in place; definitions of %s reaching it that are not fresh copies: %s' % (
                            text[:60], name, bad or 'none'), api.loc(st))
     ctx.floor('R6.4', 'in-place updates of argument-derived names', n, 1)
+    # what the caller passed as keyword arguments reaches the per-part read as it was given: the read API forwards
+    # **kwargs and may look into it, it never adds to or changes it (an injected `dtypes` replaces the caller's column
+    # selection further down)
+    for q in ('ParquetFile.iter_row_groups', 'ParquetFile.head'):
+        f = api.func(q)
+        kw = f.args.kwarg.arg if f.args.kwarg else None
+        if kw is None:
+            continue
+        muts = []
+        for x in walk_no_nested(f):
+            if isinstance(x, ast.Call) and isinstance(x.func, ast.Attribute) and norm(x.func.value) == kw and \
+                    x.func.attr in ('setdefault', 'update', 'pop', 'popitem', 'clear', '__setitem__'):
+                muts.append(norm(x)[:60])
+            if isinstance(x, (ast.Assign, ast.AugAssign, ast.Delete)):
+                tg = x.targets if isinstance(x, (ast.Assign, ast.Delete)) else [x.target]
+                for t in tg:
+                    if (isinstance(t, ast.Subscript) and norm(t.value) == kw) or (isinstance(t, ast.Name) and t.id == kw):
+                        muts.append(norm(x)[:60])
+        ctx.ob('R6.4', 'api.%s:keyword-arguments-forwarded-as-given' % q, not muts,
+               'changes to **%s before it is handed to to_pandas: %s' % (kw, muts or 'none'), api.loc(f))
 
 
 def r66(ctx, api):
